@@ -72,6 +72,9 @@ def nest(rng, ref, depth, ridx, rscope, local, once, lsigs):
     if k == 'do':
         return '(do %s %s)' % (sub(), sub())
     if k == 'let':
+        if rng.random() < 0.3:
+            # a let that binds nothing still opens a scope: definitions in it are local
+            return '(let () %s)' % sub(local=True)
         return '(let ([t%d 1]) %s)' % (depth, sub(local=True))
     if k == 'call':
         return '((fn [p%d] %s) 3)' % (depth, sub(local=True))
